@@ -15,6 +15,9 @@ RULE = ("one case = one comparison run of the real Equalizer over a script (sequ
         "id source raising after n; each case also plays every recording alone and the whole script in the other mode; "
         "a comparison is observed whole: label, status, message kind, diff (whose recording it names), class of the "
         "verdict object, attached replay, expected/actual, exception flags; "
+        "both tiers also run two REAL-process scripts (about 4 s): replayed operations that compute in a helper multiprocessing.Process "
+        "/ thread of their own (same verdicts in the dedicated worker as in-process), and a long history (48 worker generations at "
+        "recycle rate 1) under a soft RLIMIT_NOFILE 40 above the descriptors open at the start (every recording gets its own verdict); "
         "non-trivial = at least two recordings and at least one behaviour other than 'equal'; distinct = distinct case")
 EXHAUSTIVE = {"quick": False, "thorough": True}
 ASSUMPTIONS = ["scheduling of parent and worker is the one implemented by harness/impl/fake_mp.py (worker runs whenever "
@@ -33,7 +36,8 @@ ASSUMPTIONS = ["scheduling of parent and worker is the one implemented by harnes
                "closing / dropping a suspended generator runs its finally block (Python semantics) - abandonment "
                "after n yields is modelled as the run over the first n recordings"]
 TRUSTED = ["fake multiprocessing / clock / kill (harness/impl/fake_mp.py) under the real Equalizer",
-           "real-process scripts (thorough tier) are checked by the direct predicate only"]
+           "real-process scripts (thorough tier; two of them in both tiers) are checked by the direct predicate only; an anomaly counts "
+           "when it reproduces in three runs of the script"]
 
 MAIN = G.VERDICT_BEH + G.PROCESS_BEH + G.ANSWER_BEH
 W_MAIN = [30, 8, 6, 6, 6, 3, 2, 1, 1] + [5, 5, 6, 3, 2, 3, 3, 2, 2] + [5, 3]
@@ -119,9 +123,8 @@ def generate(rng, tier):
     cases.append(G.mk([1, 2, 3, 4], ["equal", "dies_before", "equal", "different"], rate=5, probe="F08"))
     cases.append(G.mk([1, 2, 3], ["late", "hang", "equal"], rate=1, probe="F08"))
     cases.append(G.mk([1, 2, 3, 4], ["equal", "drops", "equal", "different"], rate=5, probe="F08"))
-    if tier != "quick":
-        from lib import eqreal
-        cases += eqreal.real_cases("C08")
+    from lib import eqreal
+    cases += eqreal.real_cases("C08", tier)         # (quick: two scripts, about 4 s; thorough: all)
     return cases
 
 
@@ -259,7 +262,7 @@ def search_harder(rng, bad_cases):
 
 MANIFEST = dict(
     design_ref='6/C08',
-    text="Coq theorems over all scripts (sequences of recording ids with a per-recording behaviour: equal, different, player / extractor / comparator raises, bare status, worker exits, hangs, answers late, slow, answer lost in transit, worker dies before taking the task, answer that the parent cannot load or that the worker sent as (False, message)), all recycle rates, timeouts and keep-results settings, about a hand-written model of run_comparison, the dispatch/wait/timeout/recycle logic and the worker loop with explicit task queue, result queue, worker table and terminate flag: one comparison per id in input order with the right label (even with late answers); without late answers, stale tasks and lost answers the whole output is the map of the single-recording verdict (failures local, EqualizerFailure for every fault kind); for every shape of comparator result (any status or a value that is none, any message, diff, subclass instance) the comparison carries the comparator's own status, diff and class when the framework can render the verdict in its log line and is a framework failure of that recording only when it cannot; the diff attached to a verdict is that recording's or none; dedicated and in-process modes agree on the whole comparison (diff and class of the verdict included); the late-answer, stale-task and lost-answer (read lock held by a killed idle worker) clauses are refuted with witnesses (known finding F08, three signatures) and the full statement is proved for the candidate repair (fresh queues per worker). Model tied to /repo on every run by running the REAL Equalizer single-threaded over fake multiprocessing/clock/kill on generated scripts and comparing every yielded comparison with the model by vm_compute; direct predicate: labels/order/count, attached replay belongs to the labelled id, verdict equals that recording played alone, failures become EqualizerFailure for that recording only, the verdict's diff and class are the comparator's for that recording, the comparator is called with exactly the comparison data extracted from that recording (key sets varying between the recordings of a run), an exception leaving run_comparison is a failure, both modes agree on the whole comparison; thorough tier adds real-process scripts.",
+    text="Coq theorems over all scripts (sequences of recording ids with a per-recording behaviour: equal, different, player / extractor / comparator raises, bare status, worker exits, hangs, answers late, slow, answer lost in transit, worker dies before taking the task, answer that the parent cannot load or that the worker sent as (False, message)), all recycle rates, timeouts and keep-results settings, about a hand-written model of run_comparison, the dispatch/wait/timeout/recycle logic and the worker loop with explicit task queue, result queue, worker table and terminate flag: one comparison per id in input order with the right label (even with late answers); without late answers, stale tasks and lost answers the whole output is the map of the single-recording verdict (failures local, EqualizerFailure for every fault kind); for every shape of comparator result (any status or a value that is none, any message, diff, subclass instance) the comparison carries the comparator's own status, diff and class when the framework can render the verdict in its log line and is a framework failure of that recording only when it cannot; the diff attached to a verdict is that recording's or none; dedicated and in-process modes agree on the whole comparison (diff and class of the verdict included); the late-answer, stale-task and lost-answer (read lock held by a killed idle worker) clauses are refuted with witnesses (known finding F08, three signatures) and the full statement is proved for the candidate repair (fresh queues per worker). Model tied to /repo on every run by running the REAL Equalizer single-threaded over fake multiprocessing/clock/kill on generated scripts and comparing every yielded comparison with the model by vm_compute; direct predicate: labels/order/count, attached replay belongs to the labelled id, verdict equals that recording played alone, failures become EqualizerFailure for that recording only, the verdict's diff and class are the comparator's for that recording, the comparator is called with exactly the comparison data extracted from that recording (key sets varying between the recordings of a run), an exception leaving run_comparison is a failure, both modes agree on the whole comparison; real-process scripts: in both tiers operations that themselves start a helper process / thread (verdicts as in-process) and a 48-generation run under a lowered descriptor limit (every recording its own verdict), the thorough tier adds faults, shapes and data across a real pipe.",
     note='Trusted: Coq kernel + vm_compute; hand-written model; the scheduling implemented by the fake multiprocessing layer (one resolution of each race; real interleavings, pickling across the pipe and a worker killed while holding a queue lock are runtime residue, sampled by the real-process scripts); os.kill succeeds. Late answers / stale tasks / lost answers are known finding F08 (probe streams, KNOWN-FINDING lines).',
     technique='Coq proof (invariant over the parent loop, induction over scripts and over the wait loop) + model/implementation correspondence by vm_compute over a deterministic multiprocessing simulator + real-process sampling',
 )
